@@ -2,7 +2,10 @@ package checks
 
 import (
 	"context"
+	"os"
+	"path/filepath"
 	"testing"
+	"time"
 
 	"github.com/folbricht/desync"
 )
@@ -70,5 +73,30 @@ func TestSFTPShimSelf(t *testing.T) {
 		t.Fatal("missing chunk returned")
 	} else if _, ok := err.(desync.ChunkMissing); !ok {
 		t.Fatalf("missing reported as %T %v", err, err)
+	}
+}
+
+// TestPtraceSelf: the tracer counts the file-system calls of a real extract and kills it in front of each of them.
+func TestPtraceSelf(t *testing.T) {
+	if desyncBin() == "" {
+		t.Skip("no binary")
+	}
+	dir := t.TempDir()
+	out := filepath.Join(dir, "out")
+	args := []string{"extract", "-n", "1", "-s", filepath.Join(repoDir(), "cmd/desync/testdata/blob1.store"), filepath.Join(repoDir(), "cmd/desync/testdata/blob1.caibx"), out}
+	os.WriteFile(out, []byte("old"), 0644)
+	r, err := runTraced(0, dir, time.Minute, args...)
+	if err != nil || r.exit != 0 || r.signaled {
+		t.Fatalf("fault-free traced run: %v %+v", err, r)
+	}
+	t.Logf("%d file-system calls: %v ... %v", len(r.points), r.points[:5], r.points[len(r.points)-5:])
+	for _, k := range []int{1, 2, len(r.points) / 2, len(r.points) - 1, len(r.points)} {
+		os.WriteFile(out, []byte("old"), 0644)
+		r2, err := runTraced(k, dir, time.Minute, args...)
+		if err != nil || !r2.signaled {
+			t.Fatalf("k=%d: %v %+v", k, err, r2)
+		}
+		b, _ := os.ReadFile(out)
+		t.Logf("k=%d died before %s; destination has %d bytes", k, r2.killedAt, len(b))
 	}
 }
